@@ -104,7 +104,7 @@ class Ctx:
         self.t0 = time.time()
         self.scratch = tempfile.mkdtemp(prefix="verif-%s-" % pid, dir=os.environ.get("VERIF_SCRATCH", "/tmp"))
         self.repo = REPO
-        self.harness_bin = None
+        self.harness_bins = {}
         self.states = 0
         self.transitions = 0
         self.traces = 0
@@ -188,54 +188,58 @@ class Ctx:
         return r
 
     # -- harness ------------------------------------------------------------
-    def build_harness(self, tags="verif"):
-        if self.harness_bin:
-            return self.harness_bin
-        src = os.path.join(VERIF, "harness")
+    def build_harness(self, family, tags="verif"):
+        """Builds harness/cmd/<family> from the repository's current working tree."""
+        if family in self.harness_bins:
+            return self.harness_bins[family]
         dst = self.path("harness")
-        shutil.copytree(src, dst, ignore=shutil.ignore_patterns("bin", "*.test"))
-        gm = open(os.path.join(dst, "go.mod")).read()
-        gm = re.sub(r"replace github.com/lugu/qiloop => \S+", "replace github.com/lugu/qiloop => " + self.repo, gm)
-        open(os.path.join(dst, "go.mod"), "w").write(gm)
-        shutil.copy(os.path.join(self.repo, "go.sum"), os.path.join(dst, "go.sum"))
         e = dict(os.environ)
         e.update(GOENV)
-        out = self.path("harness.bin")
+        if not os.path.isdir(dst):
+            src = os.path.join(VERIF, "harness")
+            shutil.copytree(src, dst, ignore=shutil.ignore_patterns("bin", "*.test"))
+            gm = open(os.path.join(dst, "go.mod")).read()
+            gm = re.sub(r"replace github.com/lugu/qiloop => \S+", "replace github.com/lugu/qiloop => " + self.repo, gm)
+            open(os.path.join(dst, "go.mod"), "w").write(gm)
+            shutil.copy(os.path.join(self.repo, "go.sum"), os.path.join(dst, "go.sum"))
+        out = self.path("harness-%s.bin" % family)
         t = time.time()
-        p = subprocess.run(["go", "build", "-tags", tags, "-o", out, "./cmd/harness"], cwd=dst, env=e,
+        p = subprocess.run(["go", "build", "-tags", tags, "-o", out, "./cmd/" + family], cwd=dst, env=e,
                            stdout=subprocess.PIPE, stderr=subprocess.STDOUT, text=True)
         if p.returncode != 0:
             # a tree that does not build is not a verdict about the property
             raise Infra("harness build failed:\n" + p.stdout[-4000:])
-        log("harness built in %.1fs" % (time.time() - t))
-        self.harness_bin = out
+        log("harness %s built in %.1fs" % (family, time.time() - t))
+        self.harness_bins[family] = out
         self.harness_src = dst
         return out
 
-    def harness(self, args, timeout=600, input=None, env=None, check=True):
-        """Run the harness; returns (rc, stdout, stderr)."""
-        b = self.build_harness()
+    def harness(self, family, args, timeout=600, input=None, env=None, check=True):
+        """Run harness/cmd/<family> <args>; returns (rc, stdout, stderr)."""
+        b = self.build_harness(family)
         e = dict(os.environ)
         e["VERIF_SEED"] = str(self.seed)
         e["VERIF_TIER"] = self.tier
         e["VERIF_SCRATCH_DIR"] = self.scratch
+        e["VERIF_REPO"] = self.repo
+        e.update(GOENV)
         if env:
             e.update(env)
         try:
             p = subprocess.run([b] + args, cwd=self.scratch, env=e, input=input, stdout=subprocess.PIPE,
                                stderr=subprocess.PIPE, timeout=timeout, text=True, errors="replace")
         except subprocess.TimeoutExpired as ex:
-            raise Infra("harness timeout after %ss: %s" % (timeout, " ".join(args)))
+            raise Infra("harness timeout after %ss: %s %s" % (timeout, family, " ".join(args)))
         if check and p.returncode not in (0,):
-            raise Infra("harness %s exited %d:\n%s" % (" ".join(args), p.returncode, p.stderr[-4000:]))
+            raise Infra("harness %s %s exited %d:\n%s" % (family, " ".join(args), p.returncode, p.stderr[-4000:]))
         return p.returncode, p.stdout, p.stderr
 
-    def harness_json(self, args, **kw):
-        rc, out, err = self.harness(args, **kw)
+    def harness_json(self, family, args, **kw):
+        rc, out, err = self.harness(family, args, **kw)
         try:
             return json.loads(out)
         except Exception:
-            raise Infra("harness %s: output is not JSON:\n%s\n%s" % (" ".join(args), out[-2000:], err[-2000:]))
+            raise Infra("harness %s %s: output is not JSON:\n%s\n%s" % (family, " ".join(args), out[-2000:], err[-2000:]))
 
     # -- verdicts -------------------------------------------------------------
     def failure(self, klass, detail, case=None):
@@ -309,7 +313,8 @@ class Ctx:
 # known findings
 # ----------------------------------------------------------------------------
 def load_known_findings(pid):
-    p = os.path.join(VERIF, "known_findings.json")
+    """known_findings/<pid>.json: {"findings": [{id, property, class, where?, what}], "fixed": [...]}"""
+    p = os.path.join(VERIF, "known_findings", "%s.json" % pid)
     if not os.path.exists(p):
         return []
     d = json.load(open(p))
